@@ -64,6 +64,8 @@ def higher_coeffs(draw, shape, elements, sparse=True):
     n = shape[0] if len(shape) else 0
     if n >= 2 and draw(st.integers(0, 3)) == 0:
         keep = draw(st.lists(st.booleans(), min_size=n, max_size=n))
+        if draw(st.booleans()):
+            keep[0] = False       # x_1 == 0: the first non-vanishing layer has order m >= 2
         if not any(keep):
             keep[-1] = True
         a = a * np.array(keep, dtype=float).reshape((n,) + (1,) * (len(shape) - 1))
